@@ -234,6 +234,11 @@ class CFDMImplementation(Implementation):
             Field construct
 
         """
+        if not hasattr(field, "convert"):
+            # A domain construct: convert via a field construct that
+            # has that domain
+            field = self.get_class("Field")(source=field)
+
         return field.convert(construct_id, full_domain=False)
 
     def data_insert_dimension(self, data, position):
